@@ -130,6 +130,17 @@ macro_rules! common {
                 $s.truncate(*n);
                 Some("unit".to_string())
             }
+            Op::Index { kind, a, b } => {
+                let t: &str = match kind {
+                    0 => &$s[..],
+                    1 => &$s[*a..],
+                    2 => &$s[..*b],
+                    3 => &$s[*a..*b],
+                    4 => &$s[*a..=*b],
+                    _ => &$s[..=*b],
+                };
+                Some(format!("text={}", crate::ops::hexs(t.as_bytes())))
+            }
             Op::Clear => {
                 $s.clear();
                 Some("unit".to_string())
